@@ -129,3 +129,193 @@ NUM_EXT = {
     "xp.asarray": asarray2, "xp.round": round_, "xp.sum": sum_, "xp.argmax": argmax, "xp.linalg.norm": norm_positive,
     "xp.stack": stack,
 }
+
+
+# -------------------------------------------------------------------------------------------------
+# abstract 2-d arrays with ghost sums (concrete number of rows, symbolic number of columns)
+# -------------------------------------------------------------------------------------------------
+
+
+class RowArr:
+    """1-d real array of symbolic length n: elements (z3 Array Int->Real) and a ghost total that every update keeps exact."""
+
+    def __init__(self, elems, total, n):
+        self.elems, self.total, self.n = elems, total, n
+
+    @staticmethod
+    def const(c, n):
+        return RowArr(z3.K(z3.IntSort(), c), c * z3.ToReal(n) if not isinstance(n, int) else c * n, n)
+
+    @staticmethod
+    def fresh(world, name, n):
+        k = next(world.fresh_counter)
+        return RowArr(z3.Array(f"{name}!e{k}", z3.IntSort(), z3.RealSort()), z3.Real(f"{name}!t{k}"), n)
+
+    def nz(self):
+        return self.n if not isinstance(self.n, int) else z3.IntVal(self.n)
+
+    def pos(self, it, idx):
+        e = it.as_z3(idx, "int")
+        if e is None:
+            raise OutsideSubset("non-integer array index")
+        p = z3.If(e < 0, self.nz() + e, e)
+        it.oblige("array index in bounds", z3.And(p >= 0, p < self.nz()))
+        return z3.simplify(p)
+
+
+class Mat2:
+    def __init__(self, rows):
+        self.rows = rows
+
+    @property
+    def nrows(self):
+        return len(self.rows)
+
+    def _rc(self, it, idx):
+        if not (isinstance(idx, tuple) and len(idx) == 2):
+            raise OutsideSubset(f"2-d array indexed with {idx!r}")
+        r, c = idx
+        if isinstance(r, Sym):
+            raise OutsideSubset("symbolic row index")
+        r = int(r)
+        if not -self.nrows <= r < self.nrows:
+            raise PyRaiseIndex()
+        row = self.rows[r]
+        return row, row.pos(it, c)
+
+    def z_getitem(self, it, idx):
+        if isinstance(idx, int):
+            return self.rows[idx]
+        row, p = self._rc(it, idx)
+        return Sym(z3.Select(row.elems, p), "real")
+
+    def z_setitem(self, it, idx, value):
+        row, p = self._rc(it, idx)
+        v = it.as_z3(value, "real")
+        if v is None:
+            raise OutsideSubset("non-numeric array element")
+        old = z3.Select(row.elems, p)
+        row.total = z3.simplify(row.total - old + v)
+        row.elems = z3.Store(row.elems, p, v)
+
+    def z_binop(self, it, op, other, swapped):
+        if op is ast.Mult and _numeric(other):
+            c = it.as_z3(other, "real")
+            out = []
+            for r in self.rows:
+                if z3.is_K(r.elems):
+                    out.append(RowArr(z3.K(z3.IntSort(), z3.simplify(c * r.elems.arg(0))), z3.simplify(c * r.total), r.n))
+                else:
+                    raise OutsideSubset("scaling of a non-constant abstract array")
+            return Mat2(out)
+        return NotImplemented
+
+    def total(self):
+        t = z3.RealVal(0)
+        for r in self.rows:
+            t = t + r.total
+        return z3.simplify(t)
+
+
+class PyRaiseIndex(Exception):
+    pass
+
+
+class Stack1:
+    def __init__(self, mat):
+        self.mat = mat
+
+
+class Rep3:
+    """f[k] == mat for every k < n (the same fillings for every k-point)."""
+
+    def __init__(self, mat, n):
+        self.mat, self.n = mat, n
+
+
+def _shape(it, shp):
+    if not isinstance(shp, tuple) or len(shp) != 2:
+        return None
+    r, c = shp
+    if isinstance(r, Sym):
+        return None
+    return int(r), (c.e if isinstance(c, Sym) and c.kind == "int" else int(c) if not isinstance(c, Sym) else None)
+
+
+def ones(it, args, kwargs):
+    s = _shape(it, args[0])
+    if s is None or s[1] is None:
+        return it.w.uf("xp.ones", list(args), "val")
+    return Mat2([RowArr.const(z3.RealVal(1), s[1]) for _ in range(s[0])])
+
+
+def zeros(it, args, kwargs):
+    s = _shape(it, args[0])
+    if s is None or s[1] is None:
+        return it.w.uf("xp.zeros", list(args), "val")
+    return Mat2([RowArr.const(z3.RealVal(0), s[1]) for _ in range(s[0])])
+
+
+def sum2(it, args, kwargs):
+    x = args[0]
+    if isinstance(x, Mat2):
+        ax = kwargs.get("axis", args[1] if len(args) > 1 else None)
+        if ax is None:
+            return Sym(x.total(), "real")
+        if ax == 1:
+            return Vec([Sym(r.total, "real") for r in x.rows])
+        raise OutsideSubset("sum over axis 0 of an abstract array")
+    return sum_(it, args, kwargs)
+
+
+def hstack(it, args, kwargs):
+    a, b = args[0]
+    if isinstance(a, Mat2) and isinstance(b, Mat2) and a.nrows == b.nrows:
+        out = []
+        j = z3.Int("j!hs")
+        for ra, rb in zip(a.rows, b.rows):
+            n = z3.simplify(ra.nz() + rb.nz())
+            new = RowArr.fresh(it.w, "hstack", n)
+            new.total = z3.simplify(ra.total + rb.total)
+            it.p.pc.append(z3.ForAll([j], z3.Select(new.elems, j) == z3.If(j < ra.nz(), z3.Select(ra.elems, j), z3.Select(rb.elems, j - ra.nz()))))
+            out.append(new)
+        return Mat2(out)
+    return it.w.uf("xp.hstack", list(args), "val")
+
+
+def stack2(it, args, kwargs):
+    x = args[0]
+    if isinstance(x, list) and len(x) == 1 and isinstance(x[0], Mat2):
+        return Stack1(x[0])
+    return stack(it, args, kwargs)
+
+
+def vstack(it, args, kwargs):
+    from .execute import RepList
+
+    x = args[0]
+    if isinstance(x, RepList) and len(x.items) == 1 and isinstance(x.items[0], Stack1):
+        return Rep3(x.items[0].mat, x.n)
+    if isinstance(x, list) and all(isinstance(t, Stack1) for t in x) and x:
+        return Rep3(x[0].mat, len(x))
+    return it.w.uf("xp.vstack", list(args), "val")
+
+
+def ceil(it, args, kwargs):
+    x = args[0]
+    if isinstance(x, Sym) and x.kind in ("real", "int"):
+        if x.kind == "int":
+            return x
+        c = it.w.fresh("ceil", "int")
+        it.p.pc.append(z3.And(z3.ToReal(c.e) >= x.e, z3.ToReal(c.e) - 1 < x.e))
+        return c
+    if isinstance(x, (int, float)):
+        import math
+
+        return math.ceil(x)
+    return it.w.uf("xp.ceil", list(args), "val")
+
+
+ARR_EXT = dict(NUM_EXT)
+ARR_EXT.update({"xp.ones": ones, "xp.zeros": zeros, "xp.sum": sum2, "xp.hstack": hstack, "xp.stack": stack2, "xp.vstack": vstack,
+                "xp.ceil": ceil})
